@@ -34,15 +34,21 @@ def gen(rng, tier):
             grp = rng.choice(conf); A, B = rng.sample(grp, 2)
             A = [v for v in A if v != q]; B = [v for v in B if v != q]
             i = rng.randrange(len(ops) + 1); ops.insert(i, [2, A]); ops.insert(rng.randrange(i + 1, len(ops) + 1), [2, B])
-        out.append({"G": G, "D": common.random_divisor(rng, G, big=rng.random() < 0.2), "q": q, "ops": ops, "s": rng.randrange(1 << 30)})
+        c = {"G": G, "D": common.random_divisor(rng, G, big=rng.random() < 0.2), "q": q, "ops": ops, "s": rng.randrange(1 << 30)}
+        if n >= 2 and rng.random() < 0.25:      # the graph object gains an edge in the middle of the history: the divisor is older than part of its graph
+            a, b = rng.sample(range(n), 2); c["grow"] = [rng.randrange(len(ops) + 1), a, b, rng.randint(1, 3)]
+        out.append(c)
     return out
+def _grown(c):
+    i, a, b, k = c["grow"]; return common.mk_graph_like(c["G"], [tuple(e) for e in c["G"]["edges"]] + [(a, b, k)])
 def impl(c):
     from chipfiring.CFConfig import CFConfig
     rng = random.Random(c["s"]); G = c["G"]; n = G["n"]; ext = common.FreshNames(G["names"] + ["zz_unknown0", "zz_unknown1"])
     d = common.build_impl_divisor(G, c["D"], rng=rng); tgt = CFConfig(d, G["names"][c["q"]]) if c["q"] >= 0 else d
     out = []
-    for op in c["ops"]:
+    for j, op in enumerate(c["ops"]):
         res = "ok"
+        if c.get("grow") and c["grow"][0] == j: d.graph.add_edge(G["names"][c["grow"][1]], G["names"][c["grow"][2]], c["grow"][3])
         try:
             if op[0] == 0: tgt.lending_move(ext[op[1]])
             elif op[0] == 1: tgt.borrowing_move(ext[op[1]])
@@ -56,16 +62,23 @@ def impl(c):
                 if common.div_to_list(G, cp) != st["degs"] or cp.get_total_degree() != st["total"]: st["copy_bad"] = "%s of the divisor holds %s (total %s), the divisor holds %s (total %s)" % (nm, common.div_to_list(G, cp), cp.get_total_degree(), st["degs"], st["total"])
         out.append(st)
     return out
-def model_lines(c):
-    toks = ["dhist"] + common.enc_graph(c["G"]) + [c["q"]] + common.enc_list(c["D"]) + [len(c["ops"])]
-    for op in c["ops"]:
+TWO_STAGE = True
+def _hist(G, q, D, ops):
+    toks = ["dhist"] + common.enc_graph(G) + [q] + common.enc_list(D) + [len(ops)]
+    for op in ops:
         if op[0] in (0, 1): toks += op
         elif op[0] == 2: toks += [2] + common.enc_list(op[1])
         else: toks += op
-    return [toks]
+    return toks
+def model_lines(c, r=None):
+    if not c.get("grow") or c["grow"][0] >= len(c["ops"]): return [_hist(c["G"], c["q"], c["D"], c["ops"])]
+    i = c["grow"][0]; ls = [_hist(c["G"], c["q"], c["D"], c["ops"][:i])]
+    # second segment: the grown graph, starting from the chips the implementation holds after move #i-1 (verified against the model by the first segment)
+    if r and "ok" in r and len(r["ok"]) >= i: ls.append(_hist(_grown(c), c["q"], r["ok"][i - 1]["degs"] if i > 0 else c["D"], c["ops"][i:]))
+    return ls
 def judge(c, r, mo):
     if "exc" in r: return [{"what": "implementation raised %s: %s" % (r["exc"], r.get("msg"))}]
-    steps = " ".join(mo[0]).split("|")[:-1]
+    steps = " ".join(mo[0]).split("|")[:-1] + (" ".join(mo[1]).split("|")[:-1] if len(mo) > 1 else [])
     for i, (st, ir) in enumerate(zip(steps, r["ok"])):
         a, b = st.split(";"); a = a.split(); b = b.split()
         res = a[0]; degs = [int(x) for x in a[1:]]; total = int(b[0]); eff = b[1] == "1"
@@ -80,6 +93,7 @@ def oracle(c, r):
     M = common.matrix(c["G"]); n = c["G"]["n"]; D = list(c["D"]); q = c["q"]; tot0 = sum(D)
     for i, (op, ir) in enumerate(zip(c["ops"], r["ok"])):
         if ir.get("copy_bad"): return {"violates": True, "why": ir["copy_bad"]}
+        if c.get("grow") and c["grow"][0] == i: M = common.matrix(_grown(c))
         exp = "ok"; E = list(D)
         if op[0] in (0, 1):
             v = op[1]
